@@ -3,7 +3,7 @@
     (props/C10/harness/csg.cc) interprets the same sequence against liborange
     and both print one record per op. No proofs here. *)
 From Coq Require Import List Arith Bool NArith ZArith.
-From Celer Require Import C10.Csg C10.Logic C10.DeMorgan.
+From Celer Require Import C10.Csg C10.Logic C10.DeMorgan C10.Sense.
 Import ListNotations.
 
 Inductive opc :=
@@ -81,8 +81,10 @@ Definition run_op (W : nat) (chk : bool) (t : tree) (o : opc) : res (tree * list
       _ <- expect (n <? size t) ;;
       b <- flag_internal (S (size t)) t n ;; Ok (t, [PFlag b])
   | OEval n sigmas =>
+      (* SenseEvaluator at a point off every surface (model: Sense.v) *)
       _ <- expect (n <? size t) ;;
-      Ok (t, [PEvals (map (fun sg => eval t (sigma_of sg) n) sigmas)])
+      evals <- mapM (fun sg => sense_eval_bool t (sigma_of sg) n) sigmas ;;
+      Ok (t, [PEvals evals])
   | OInfix n sigmas =>
       l <- build_infix (S (size t)) t n ;;
       evals <- mapM (fun sg => infix_evaluate l (sigma_of sg)) sigmas ;;
